@@ -48,13 +48,13 @@ package proto
 //@   ensures p <= 9 ==> r == pow10(9 - p)
 
 //@ spec func dt64lo(p Int) Int = -2208988800 * pow10(p)
-//@ spec func dt64hi(p Int) Int = ite(p == 9, 9223372036854775807, 10413792000 * pow10(p) - 1)
+//@ spec func dt64hi(p Int) Int = ite(p == 9, 9223372036854775807, 10413792000 * pow10(p))
 
 //@ -- Documented range of DateTime64: 1900-01-01 .. 2299-12-31 (precision 9: .. 2262-04-11 23:47:16).
 //@ contract ToDateTime64(t, p) (d) props(C20)
 //@   requires p <= 9
 //@   requires -2208988800 <= t.sec && t.sec < 10413792000
-//@   requires p == 9 ==> t.sec < 9223372036
+//@   requires p == 9 ==> inI64(nanos(t))
 //@   split p in 0..9
 //@   ensures d * pow10(9 - p) <= nanos(t) + pow10(9 - p) - 1 && nanos(t) - pow10(9 - p) + 1 <= d * pow10(9 - p) {resolution}
 //@   ensures nanos(t) % pow10(9 - p) == 0 ==> d * pow10(9 - p) == nanos(t) {exact}
@@ -64,3 +64,101 @@ package proto
 //@   requires dt64lo(p) <= d && d <= dt64hi(p)
 //@   split p in 0..9
 //@   ensures nanos(t) == d * pow10(9 - p) {instant}
+
+// 128/256-bit integers (two's complement, little-endian word order)
+
+//@ spec func maxU64() Int = 18446744073709551615
+//@ spec func signExt(v Int) Int = ite(v < 0, 18446744073709551615, 0)
+
+//@ contract Int128FromInt(v) (r) props(C20)
+//@   ensures r.Low == u64(v) && r.High == signExt(v)
+//@ contract UInt128FromInt(v) (r) props(C20)
+//@   ensures r.Low == u64(v) && r.High == signExt(v)
+//@ contract Int128FromUInt64(v) (r) props(C20)
+//@   ensures r.Low == v && r.High == 0
+//@ contract UInt128FromUInt64(v) (r) props(C20)
+//@   ensures r.Low == v && r.High == 0
+//@ contract (i Int128) Int() (r) props(C20)
+//@   ensures (i.High == 0 || i.High == maxU64()) ==> r == i64(i.Low)
+//@   ensures !(i.High == 0 || i.High == maxU64()) ==> r == 9223372036854775807
+//@ contract (i Int128) UInt64() (r) props(C20)
+//@   ensures (i.High == 0 || i.High == maxU64()) ==> r == i.Low
+//@   ensures !(i.High == 0 || i.High == maxU64()) ==> r == maxU64()
+//@ contract (i UInt128) UInt64() (r) props(C20)
+//@   ensures i.High == 0 ==> r == i.Low
+//@   ensures i.High > 0 ==> r == maxU64()
+//@ contract (i UInt128) Int() (r) props(C20)
+//@   ensures i.High == 0 ==> r == i64(i.Low)
+//@   ensures i.High > 0 ==> r == -1
+//@ contract Int256FromInt(v) (r) props(C20)
+//@   ensures r.Low.Low == u64(v) && r.Low.High == signExt(v) && r.High.Low == signExt(v) && r.High.High == signExt(v)
+//@ contract UInt256FromInt(v) (r) props(C20)
+//@   ensures r.Low.Low == u64(v) && r.Low.High == signExt(v) && r.High.Low == signExt(v) && r.High.High == signExt(v)
+//@ contract UInt256FromUInt64(v) (r) props(C20)
+//@   ensures r.Low.Low == v && r.Low.High == 0 && r.High.Low == 0 && r.High.High == 0
+
+// IPv4 / IPv6
+
+//@ import netip net/netip
+//@ contract (v IPv4) ToIP() (r) props(C20)
+//@   ensures r.is4 && r.bytes[12] == byte32(v, 3) && r.bytes[13] == byte32(v, 2) && r.bytes[14] == byte32(v, 1) && r.bytes[15] == byte32(v, 0)
+//@ contract ToIPv4(ip) (r) props(C20)
+//@   requires ip.is4
+//@   ensures r == unle32(ip.bytes[15], ip.bytes[14], ip.bytes[13], ip.bytes[12])
+//@ contract (v IPv6) ToIP() (r) props(C20)
+//@   ensures !r.is4 && forall j in 0..16 :: r.bytes[j] == v[j]
+//@ contract ToIPv6(ip) (r) props(C20)
+//@   ensures !ip.is4 ==> forall j in 0..16 :: r[j] == ip.bytes[j]
+
+// Interval arithmetic: the documented meaning of each scale
+
+//@ contract (i Interval) Add(t) (r) props(C20)
+//@   requires i.Scale <= 7
+//@   requires i.Scale == IntervalSecond ==> inI64(i.Value * 1000000000) && inI64(t.sec + floordiv(t.nsec + i.Value * 1000000000, 1000000000))
+//@   requires i.Scale == IntervalMinute ==> inI64(i.Value * 60000000000) && inI64(t.sec + floordiv(t.nsec + i.Value * 60000000000, 1000000000))
+//@   requires i.Scale == IntervalHour ==> inI64(i.Value * 3600000000000) && inI64(t.sec + floordiv(t.nsec + i.Value * 3600000000000, 1000000000))
+//@   requires i.Scale == IntervalWeek ==> inI64(i.Value * 7)
+//@   requires i.Scale == IntervalQuarter ==> inI64(i.Value * 4)
+//@   ensures i.Scale == IntervalSecond ==> nanos(r) == nanos(t) + i.Value * 1000000000 {second}
+//@   ensures i.Scale == IntervalMinute ==> nanos(r) == nanos(t) + i.Value * 60000000000 {minute}
+//@   ensures i.Scale == IntervalHour ==> nanos(r) == nanos(t) + i.Value * 3600000000000 {hour}
+//@   ensures i.Scale == IntervalDay ==> r.sec == addDateSec(t.sec, t.off, 0, 0, i.Value) {day}
+//@   ensures i.Scale == IntervalWeek ==> r.sec == addDateSec(t.sec, t.off, 0, 0, 7 * i.Value) {week}
+//@   ensures i.Scale == IntervalMonth ==> r.sec == addDateSec(t.sec, t.off, 0, i.Value, 0) {month}
+//@   ensures i.Scale == IntervalQuarter ==> r.sec == addDateSec(t.sec, t.off, 0, 3 * i.Value, 0) {quarter}
+//@   ensures i.Scale == IntervalYear ==> r.sec == addDateSec(t.sec, t.off, i.Value, 0, 0) {year}
+
+// Round-trip lemmas (harness functions in lemmas_verif.go)
+
+//@ contract lemmaDateRoundTrip(d) (r) props(C20)
+//@   ensures r == d
+//@ contract lemmaDate32RoundTrip(d) (r) props(C20)
+//@   requires -25567 <= d && d <= 120529
+//@   ensures r == d
+//@ contract lemmaDateTimeRoundTrip(d) (r) props(C20)
+//@   ensures r == d
+//@ contract lemmaDateTime64RoundTrip(d, p) (r) props(C20)
+//@   requires p <= 9 && dt64lo(p) <= d && d <= dt64hi(p) && (p < 9 ==> d < dt64hi(p))
+//@   split p in 0..9
+//@   ensures r == d
+//@ contract lemmaTimeDateTime64(t, p) (r) props(C20)
+//@   requires p <= 9 && -2208988800 <= t.sec && t.sec < 10413792000 && (p == 9 ==> inI64(nanos(t)))
+//@   split p in 0..9
+//@   ensures nanos(r) < nanos(t) + pow10(9 - p) && nanos(t) - pow10(9 - p) < nanos(r)
+//@   ensures nanos(t) % pow10(9 - p) == 0 ==> nanos(r) == nanos(t)
+//@ contract lemmaInt128RoundTrip(v) (r) props(C20)
+//@   ensures r == v
+//@ contract lemmaInt128U64RoundTrip(v) (r) props(C20)
+//@   ensures r == v
+//@ contract lemmaUInt128RoundTrip(v) (r) props(C20)
+//@   ensures r == v
+//@ contract lemmaUInt128IntRoundTrip(v) (r) props(C20)
+//@   requires v >= 0
+//@   ensures r == v
+//@ contract lemmaIPv4RoundTrip(v) (r) props(C20)
+//@   ensures r == v
+//@ contract lemmaIPv6RoundTrip(v) (r) props(C20)
+//@   ensures forall j in 0..16 :: r[j] == v[j]
+//@ contract lemmaIPv4FromAddr(ip) (r) props(C20)
+//@   requires ip.is4 && forall j in 12..16 :: 0 <= ip.bytes[j] && ip.bytes[j] < 256
+//@   ensures r.is4 && forall j in 12..16 :: r.bytes[j] == ip.bytes[j]
